@@ -216,7 +216,7 @@ CHECKS: dict[str, dict] = {
         "engine": "E3-schedule-engine",
         "technique": "Executor.tla (one action per synchronisation point of processes.py) model-checked exhaustively incl. liveness under fairness; TLC schedules replayed into the real PopenExecutor under a deterministic scheduler; real-subprocess traces validated by Trace_Executor.tla",
         "text": "Executor.tla has one action per synchronisation point of submit / worker / cancel / shutdown and is checked exhaustively by TLC for 1-2 jobs (quick) and 3 jobs (thorough): ResultExactlyOnce, NoAcceptAfterShutdown, QuiescentAfterReturnedWait, SnapshotCoversRegistered, TimeoutIsUnknown as invariants, WaitReturns etc. as liveness under fairness; mutated models (and the pre-fix check-outside-the-lock order) are refuted as negative controls. Schedules generated by TLC (all <= 2-preemption schedules of one job, thousands of random 2-3 job schedules) are replayed into the REAL PopenExecutor/PopenFuture with threading, Popen, psutil and the cancel pool substituted by controlled equivalents in the halmos.processes namespace, comparing the projected state and the enabled set after every step; randomized runs with real subprocesses are recorded and validated against Trace_Executor.tla; solve_low_level is driven with stub solvers that answer late (timeout must give `unknown`).",
-        "note": "Two remaining genuine behaviours are recorded findings (cancel-before-popen, join-raises-job-exception). One shutdown() call per executor is assumed. The replay is tied to the current synchronisation points of processes.py.",
+        "note": "Two remaining genuine behaviours are recorded findings (cancel-before-popen, join-raises-job-exception). Up to two shutdown() calls per executor (any pair of modes). The replay is tied to the current synchronisation points of processes.py.",
         "design_ref": "5 C17, A.1",
     },
     "C18": {
